@@ -14,6 +14,7 @@ REGISTRY = {
     'C02': ('checks.strings', 'check_c02', 'model_checking'),
     'C07': ('checks.stdlib', 'check_c07', 'exploration'),
     'C08': ('checks.values_checks', 'check_c08', 'other'),
+    'C03': ('checks.layoutcfg', 'check_c03', 'other'),
     'C04': ('checks.layout', 'check_c04', 'model_checking'),
     'C05': ('checks.layout', 'check_c05', 'model_checking'),
     'C06': ('checks.layout', 'check_c06', 'model_checking'),
